@@ -45,9 +45,9 @@ def registry():
         "everything in get_range: bounding box, re-expansion of repeated rows/columns, interior empty runs (run-length arithmetic)",
         [T.r_tab_ods, X.r_xmlcfg, W.r_odspara, M.r_odsrep, M.r_odsflat, U.r_odswidth, U.r_benign])
     R["C06"] = _p(
-        "Decides, over the HIR/MIR of the reader modules (cfb, vba, xls, xlsb, xlsx, ods, utils, auto, plus Dimensions::len and Range::from_sparse): XML pull loops leave on Eof (R-EOF); self-chasing loops have a bounding exit (R-CHASE); Range::range preconditions (R-RANGEPRE); and, by abstract interpretation of MIR (linear expressions over source atoms, intervals, symbolic and exact slice lengths, branch refinement, helper summaries): every slice/index/split/copy on file bytes or with a file-derived index is bounds-proved (R-INDEX), file-derived arithmetic cannot overflow (R-ARITH), file-derived allocation sizes are capped or input-bounded (R-ALLOC), file-derived trip counts consume input or do not grow memory (R-AMP), unwrap/expect/panic constructs are discharged by an enumerated idiom (R-PANIC); the byte count of Read::read is never discarded (R-IOAMT); the character loop of read_dbcs advances to the next CONTINUE fragment or fails whenever characters are owed (R-DBCS-PROGRESS).  Sites the pinned tree leaves unchecked are listed in known_findings.json (each group demonstrated by a failing input) or audited_safe.json (one reason per site).",
+        "Decides, over the HIR/MIR of the reader modules (cfb, vba, xls, xlsb, xlsx, ods, utils, auto, plus Dimensions::len and Range::from_sparse): XML pull loops leave on Eof (R-EOF); self-chasing loops have a bounding exit (R-CHASE); Range::range preconditions (R-RANGEPRE); and, by abstract interpretation of MIR (linear expressions over source atoms, intervals, symbolic and exact slice lengths, branch refinement, helper summaries): every slice/index/split/copy on file bytes or with a file-derived index is bounds-proved (R-INDEX), file-derived arithmetic cannot overflow (R-ARITH), file-derived allocation sizes are capped or input-bounded (R-ALLOC), file-derived trip counts consume input or do not grow memory (R-AMP), unwrap/expect/panic constructs are discharged by an enumerated idiom (R-PANIC); the byte count of Read::read is never discarded (R-IOAMT); the character loop of read_dbcs advances to the next CONTINUE fragment or fails whenever characters are owed (R-DBCS-PROGRESS); reserved compound-file sector numbers never reach Sectors::get (R-CFBRES: one known finding).  Sites the pinned tree leaves unchecked are listed in known_findings.json (each group demonstrated by a failing input) or audited_safe.json (one reason per site).",
         "dependencies (zip, quick-xml, encoding_rs, codepage); time / memory constants",
-        [X.r_eof, W.r_rangepre, M.r_chase, Z.r_mir, U.r_ioamt, U.r_dbcs_progress])
+        [X.r_eof, W.r_rangepre, M.r_chase, Z.r_mir, U.r_ioamt, U.r_dbcs_progress, U.r_cfbres])
     R["C07"] = _p(
         "Decides: the write footprint of every public read method of the four reader structs is limited to the archive cursor and designated setters/loaders, and no reader stores a cursor (R-FRAME); every Sheets method forwards to the same method of the wrapped reader (R-DELEG); worksheet_range_at & co use n itself (R-AT); worksheets() goes through worksheet_range or the very field it returns (R-WS); unknown names reach WorksheetNotFound (R-NOTFOUND); From<DataRef> for Data preserves variants (R-TAB-FROM); a zip lacking the format's mandatory part is rejected so that auto-detection cannot pick the wrong reader (R-AUTODETECT); a borrowed range / cell reader keeps the workbook exclusively borrowed (compile_fail witnesses with compiling twins, R-WITNESS).",
         "equality of values across calls beyond the frame condition (zip / XML determinism is trusted)",
@@ -65,9 +65,9 @@ def registry():
         "the full number-format grammar (R-FMT-SCAN decides the per-character decision table of the scanner against the clauses the property states, not the language as a whole)",
         [W.r_numctor, T.r_tab_fmt, T.r_tab_fmtkind, part(W.r_sst, only=["cellXfs", "XF table"]), W.r_fmtprec, M.r_unesc, Q.r_fmt_scan, U.r_xlsbcell])
     R["C11"] = _p(
-        "Decides only the totality clause of C11 (feature `dates`): every chrono call reachable in the date conversions is a fallible/checked API or has constant operands, so a serial value beyond the representable calendar yields None rather than a panic (R-PANIC-DATES).",
-        "epoch, 1900 leap-year shim, 1904 offset, rounding to the millisecond, monotonicity, as_date/as_time being components of as_datetime: all numeric and not decided",
-        [D.r_c11])
+        "Decides, for feature `dates`: totality -- every chrono call reachable in the date conversions is a fallible/checked API or has constant operands, so a serial beyond the representable calendar yields None rather than a panic (R-PANIC-DATES); the constants of the conversion follow the date-system table: epoch 1899-12-30, 1462 days between the systems, 86 400 000 ms per day, both conversions scaled by it (R-DATE-TABLE); the 1900 leap-day shim (+1 day below serial 60) is decided on the value after the 1904 offset and on the right branch (R-DATE-ORDER); the millisecond count is never cast to an unsigned type (R-DATE-SIGN); as_date / as_time are components of as_datetime or parsed ISO text, never built from numbers of their own (R-DATE-COMP).",
+        "the floating-point rounding to the millisecond, monotonicity as a numeric fact, Int/Float cells converting like 1900-system date-times beyond their routing through ExcelDateTime",
+        [D.r_c11, D.r_c11_conv])
     R["C12"] = _p(
         "Decides: after a fragment switch inside a character run the compression flag is re-read and its byte consumed; rich-text runs then extended data are skipped unconditionally in order; Record::skip consumes no flag byte (R-CONT); the SST gets one entry per item (R-SST); the character loop always advances or fails (R-DBCS-PROGRESS); all three storage forms are decoded by the one workbook decoder after widening (R-DBCS-ENC).",
         "8/16-bit decoding arithmetic inside encoding_rs",
@@ -75,7 +75,7 @@ def registry():
     R["C13"] = _p(
         "Decides: header and directory-entry field offsets follow MS-CFB (R-TAB-CFB); mini-stream cutoff `len < 4096` selecting mini FAT vs FAT and truncation of the chain to the stream length (R-CFBFLOW); every directory entry is decoded (R-CFBDIR); FAT / DIFAT walks are bounded (R-CHASE: two known findings); the FAT tables are built append-only (R-CFBTAB); a Cfb is not cloned and then used alongside its clone, which would share the reader but not the sector cache (R-CFBCLONE).",
         "sector offset arithmetic, chain order",
-        [T.r_tab_cfb, W.r_cfbflow, M.r_cfbdir, M.r_chase, U.r_cfbclone, U.r_cfbtab])
+        [T.r_tab_cfb, W.r_cfbflow, M.r_cfbdir, M.r_chase, U.r_cfbclone, U.r_cfbtab, U.r_cfbver])
     R["C14"] = _p(
         "Decides: operator tokens (R-TAB-OP) and error literals (R-TAB-ERR) of both token decoders follow MS-XLS/MS-XLSB; operand tokens push one entry and consume the payload width of the spec, reference tokens render the column masked to 14 bits with `$` exactly on the absolute components from the right payload bytes (R-TAB-PTG); formula cell positions through the sibling rules (R-SIB-XLSX, R-SIB-XLSB); defined-name tables get one entry per record so name tokens resolve (R-SST); both decoders keep the same operand-stack / output-buffer discipline per token class (R-SIB-PTG); PtgAttr sub-token widths follow the spec incl. the variable PtgAttrChoose table (R-TAB-ATTR); 3-D references and defined names reach their sheet through ExternSheet (R-XTI); every digit of a column index reaches the rendered letters (R-DIGITS, must-use on MIR); explicit cell references decide formula positions (R-CELLPOS).",
         "the digit arithmetic of push_column beyond the must-use clause, function-name table contents",
